@@ -4,7 +4,7 @@ input bitwise unchanged via M4)."""
 import numpy as np
 
 from .. import gen, probe
-from ..drive import call
+from ..drive import call, refused_then_used
 from ..shard import Workload
 from ._common import arm_tt
 from . import ambient
@@ -99,6 +99,12 @@ def w_svd(ctx, rng, idx):
         call('TT.svd', t.svd, index, prop=P)
         call('TT.svd', t.svd, index, prop=P, threshold=1e-10)
         call('TT.svd', lambda: t.svd(index, max_rank=int(rng.integers(1, 4))), prop=P)
+    if rng.random() < 0.3:
+        # a split position outside the train (a caller's off-by-one), without overwriting: the call is refused and the train is used further -
+        # "neither call changes the input unless overwriting was requested" holds for refused calls as well (judged in the wrapper)
+        bad = [d, d + 1, d + 3, -1][int(rng.integers(0, 4))]
+        refused_then_used('TT.svd', t.svd, bad)
+        call('TT.svd', t.svd, int(rng.integers(1, d)), prop=P, tags=['after_refused_call'])
     index = int(rng.integers(1, d))
     u = clone(t)
     call('TT.svd', u.svd, index, prop=P, overwrite=True)
@@ -118,6 +124,10 @@ def w_pinv(ctx, rng, idx):
         call('TT.pinv', t.pinv, index, prop=P)
         call('TT.pinv', t.pinv, index, prop=P, threshold=1e-10)
         call('TT.pinv', lambda: t.pinv(index, threshold=float(10 ** rng.uniform(-12, -6))), prop=P)
+    if rng.random() < 0.3:
+        bad = [d, d + 1, d + 3, -1][int(rng.integers(0, 4))]
+        refused_then_used('TT.pinv', t.pinv, bad)
+        call('TT.pinv', t.pinv, int(rng.integers(1, d)), prop=P, tags=['after_refused_call'], threshold=1e-10)
     index = int(rng.integers(1, d))
     u = clone(t)
     call('TT.pinv', u.pinv, index, prop=P, threshold=1e-10, overwrite=True)
